@@ -17,7 +17,8 @@ RULE = ("case = (reference continuum 2-5 annotators, integer-valued or fractiona
         "sample non-empty with len(ground truth) annotators; when the continuum is long enough (length >= 2*k*d + 2k + 2, d = half the mean unit length, "
         "k sampled annotators) SOME choice of one explanation per sampled annotator has all pivots pairwise >= d apart (existential: periodic references "
         "cannot raise a false alarm). Non-trivial = >= 3 sampled annotators or >= 1 wrapped unit; distinct = canonical JSON.")
-ASSUMPTIONS = ["matching is exact in integer mode on grid times and within 1e-9*scale in float mode",
+ASSUMPTIONS = ["interleaved draws: a nested draw from the same sampler object is triggered test-side at the public Continuum.add_annotator call of the outer draw (what two threads sharing one sampler would produce)",
+               "matching is exact in integer mode on grid times and within 1e-9*scale in float mode",
                "a sampled annotator without units is explained by any ground-truth annotator without units (its pivot is unobservable and unconstrained)",
                "in integer mode, 'pivot within the bounds and integral' is demanded only when the continuum is long enough (length >= 2kd + 2k + 2): shorter continua may contain no whole number and reach the sampler's documented fallbacks"]
 
@@ -103,7 +104,32 @@ def check(case):
     wrapped_any = False
     classes = [f"k={k}", case["pivot"], f"bounds={case['bounds']}", "sampler-used-before" if case.get("used_before") else "fresh-sampler", "long-enough" if long_enough else "too-short-for-separation"]
     for draw_i in range(case["draws"]):
-        s = lib_call("sample_from_continuum", lambda: smp.sample_from_continuum)
+        if case.get("interleave") and draw_i % 4 == 3:
+            # harness-owned interleaving of two draws from the SAME sampler object (as two threads sharing it would
+            # produce): a second, complete draw is made between two pivot draws of the outer one, at the public
+            # add_annotator call.  The outer draw must still be a valid sample.
+            C = pa.Continuum
+            orig_add_annotator = C.add_annotator
+            st_ = {"depth": 0, "calls": 0}
+
+            def hooked(self, annotator):
+                orig_add_annotator(self, annotator)
+                st_["calls"] += 1
+                if st_["depth"] == 0 and st_["calls"] == 1 + (draw_i % max(1, k - 1)):
+                    st_["depth"] = 1
+                    try:
+                        _ = smp.sample_from_continuum
+                    finally:
+                        st_["depth"] = 0
+            C.add_annotator = hooked
+            try:
+                s = lib_call("sample_from_continuum[interleaved]", lambda: smp.sample_from_continuum)
+            finally:
+                C.add_annotator = orig_add_annotator
+            if "interleaved-draws" not in classes:
+                classes.append("interleaved-draws")
+        else:
+            s = lib_call("sample_from_continuum", lambda: smp.sample_from_continuum)
         if not s:
             raise Violation("empty-sample", f"draw {draw_i}")
         if s is c:
@@ -182,7 +208,7 @@ def cases(draw):
     return {"continuum": cont, "ground_truth": gt, "pivot": draw(st.sampled_from(["int_pivot", "float_pivot"])),
             "bounds": draw(st.sampled_from(["natural", "natural", "reset", "widened"])),
             "widen": [float(draw(st.integers(0, 50))), float(draw(st.integers(0, 300)))],
-            "seed": draw(st.integers(0, 2 ** 31 - 1)), "draws": draw(st.integers(12, 40)), "used_before": draw(st.booleans())}
+            "seed": draw(st.integers(0, 2 ** 31 - 1)), "draws": draw(st.integers(12, 40)), "used_before": draw(st.booleans()), "interleave": draw(st.booleans())}
 
 
 def subchecks(tier):
